@@ -52,6 +52,11 @@ fn systematic_defs() -> Vec<ThrDef> {
                 name: Box::leak(format!("sys_{}{}", name, if uninit { "_uninit" } else { "" }).into_boxed_str()),
                 variants: vec![(vec![f("x", "u64", true, true), mk("t")], vec![]), (vec![fu("y", "u32", true, true)], vec!["t"]), (vec![mk("t2")], vec!["x"])],
             });
+            // the special field stays while other fields come and go
+            out.push(ThrDef {
+                name: Box::leak(format!("kept_{}{}", name, if uninit { "_uninit" } else { "" }).into_boxed_str()),
+                variants: vec![(vec![f("x", "u64", true, true), mk("t")], vec![]), (vec![fu("y", "u32", true, true)], vec![]), (vec![f("z", "String", true, true)], vec!["x"]), (vec![], vec!["y"])],
+            });
         }
     }
     // many data in one variant: the special type first, around the 12th position and last
